@@ -53,8 +53,9 @@ class C01(PropBase):
         return out
 
     def mk(self, rng, cfg, txns, kind):
-        text = common.render_journal(txns, common.gen_layout(rng))
-        return {"op": "run", "kind": kind, "cfg": cfg, "txns": txns, "text": text, "want": ["txns"]}
+        layout = common.gen_layout(rng)
+        text = common.render_journal(txns, layout)
+        return {"op": "run", "kind": kind, "cfg": cfg, "txns": txns, "text": text, "layout": layout, "want": ["txns"]}
 
     def impl_case(self, case):
         return {k: v for k, v in case.items() if k != "txns"}
